@@ -636,7 +636,10 @@ impl<V: Val> Runner<V> {
                             if t_after_rm > m {
                                 continue;
                             }
-                            if rm.is_empty() || rm.iter().any(|last| t_after_rm + cand[last].footprint > m) {
+                            // already-expired entries that also went may still have been present when the last
+                            // real victim was chosen (they may be purged at any time, before or after)
+                            let stale_total: usize = removed_stale.iter().map(|x| cand[x].footprint).sum();
+                            if rm.is_empty() || rm.iter().any(|last| t_after_rm + cand[last].footprint + stale_total > m) {
                                 explained = true;
                                 break;
                             }
